@@ -48,8 +48,9 @@ RULE = (
 ASSUMPTIONS = [
     "any exception out of the constructor or to_knx() counts as refusal (class recorded in `classes`), as the "
     "property only forbids *silent* change",
-    "a class whose unmodified base object already fails the round trip is reported once as C06:neq:<Class>.* and "
-    "its field sweeps are skipped (same root cause)",
+    "a class whose decoded copy is field-wise identical but not `==` (a member type without __eq__) is reported once "
+    "as C06:neq:<Class>.* and its field sweeps continue under field-wise equality, so that this root cause hides "
+    "no other; a class whose unmodified base object fails the round trip for another reason has its sweeps skipped",
     "fields are set to values of their annotated type only (no str for int etc.)",
 ]
 
@@ -233,10 +234,49 @@ def check_case(ctx, case: dict) -> str:
     except Exception as e:  # noqa: BLE001
         ctx.fail(f"C06:undecodable:{key}", case, f"{o!r}.to_knx() = {bytes(raw).hex()} which the decoder rejects: {e!r} [{exc_site(e)}]")
         return "undecodable"
-    if type(o2) is not type(o) or not (o2 == o):
-        ctx.fail(f"C06:neq:{key}", case, f"{o!r}.to_knx() = {bytes(raw).hex()} decodes to {o2!r}")
-        return "neq"
-    return "roundtrip"
+    if type(o2) is o.__class__ and o2 == o:
+        return "roundtrip"
+    if struct_eq(o2, o):
+        # field-wise identical but `==` is False: some member type defines no __eq__, so no
+        # object of this class ever equals its decoded copy - one root cause per class
+        ctx.fail(f"C06:neq:{cls.__name__}.*", case,
+                 f"{o!r}.to_knx() = {bytes(raw).hex()} decodes to a field-wise identical object that does not compare equal "
+                 f"(member without __eq__: {no_eq_members(o)})")
+        return "neq-identity"
+    ctx.fail(f"C06:neq:{key}", case, f"{o!r}.to_knx() = {bytes(raw).hex()} decodes to {describe(o2)} (sent {describe(o)})")
+    return "neq"
+
+
+def _members(x) -> list[str] | None:
+    if dataclasses.is_dataclass(x) and not isinstance(x, type):
+        return [f.name for f in dataclasses.fields(x)]
+    if type(x).__eq__ is object.__eq__ and not isinstance(x, (int, str, bytes)):
+        slots = getattr(type(x), "__slots__", None)
+        return list(slots) if slots else (list(vars(x)) if hasattr(x, "__dict__") else [])
+    return None
+
+
+def struct_eq(a, b) -> bool:
+    """Field-wise equality that looks through classes lacking __eq__ (identity compare)."""
+    if type(a) is not type(b):
+        return False
+    m = _members(a)
+    if m is not None:
+        return all(struct_eq(getattr(a, n), getattr(b, n)) for n in m)
+    if isinstance(a, (list, tuple)):
+        return len(a) == len(b) and all(struct_eq(x, y) for x, y in zip(a, b))
+    return a == b
+
+
+def no_eq_members(o) -> list[str]:
+    return sorted({type(getattr(o, n)).__name__ for n in (_members(o) or []) if type(getattr(o, n)).__eq__ is object.__eq__})
+
+
+def describe(x) -> str:
+    m = _members(x)
+    if m is None:
+        return repr(x)
+    return f"{type(x).__name__}({', '.join(f'{n}={describe(getattr(x, n))}' for n in m)})"
 
 
 def cases_for(cls: type, seed: int):
@@ -275,7 +315,7 @@ def sweep_class(ctx, cls: type) -> None:
             out = check_case(ctx, case)
             ctx.case(("base", cls.__name__, case["base"]), True, cls=("base", f"outcome:{out.split(':')[0]}"))
             if out in ("neq", "undecodable"):
-                base_bad = True
+                base_bad = True  # "neq-identity" is not: field sweeps continue under field-wise equality
             continue
         if base_bad:
             return
@@ -322,7 +362,7 @@ def _hyp_cases(seed: int):
 def hyp_oracle(ctx, case: dict) -> None:
     cls = CLASSES[case["cls"]]
     # a class whose base object does not round-trip is already reported by the sweep
-    if check_case(ctx.sub(0), {"cls": case["cls"], "field": "*", "base": case["base"], "value": None}) != "roundtrip":
+    if check_case(ctx.sub(0), {"cls": case["cls"], "field": "*", "base": case["base"], "value": None}) not in ("roundtrip", "neq-identity"):
         ctx.classes["hyp:base-does-not-roundtrip"] += 1
         return
     out = check_case(ctx, case)
